@@ -911,6 +911,12 @@ func Got2[T any](c <-chan T) (T, bool) {
 // MapOrder returns the keys of m in an order chosen by the explorer (all
 // permutations up to 4 keys, rotations and reversal above); outside a run the
 // runtime's own order.
+//
+// MapOrderCost, when positive, makes every departure from the sorted order a
+// deviation of that cost (bounded by the part's deviation bound) instead of a
+// free choice: for scenarios that range over a map many times in one execution.
+var MapOrderCost int
+
 func MapOrder[K comparable, V any](m map[K]V) []K {
 	keys := make([]K, 0, len(m))
 	for k := range m {
@@ -935,13 +941,13 @@ func MapOrder[K comparable, V any](m map[K]V) []K {
 		out := make([]K, 0, len(keys))
 		rest := keys
 		for len(rest) > 1 {
-			i := s.c.Choose(len(rest), "map-order")
+			i := s.c.ChooseCost(len(rest), "map-order", MapOrderCost)
 			out = append(out, rest[i])
 			rest = append(append([]K{}, rest[:i]...), rest[i+1:]...)
 		}
 		return append(out, rest[0])
 	}
-	r := s.c.Choose(2*len(keys), "map-order")
+	r := s.c.ChooseCost(2*len(keys), "map-order", MapOrderCost)
 	rot := r % len(keys)
 	out := append(append([]K{}, keys[rot:]...), keys[:rot]...)
 	if r >= len(keys) {
